@@ -35,19 +35,19 @@ the ones the repository's own suite never exercises) -/
 theorem guards_necessary :
     let all : Guards := ⟨true, true, true, true, true, true, true, true, true, true, true⟩
     (runWith { all with skipVerifyDocNil := false }
-      { entry := .nVerify, oci := .missing, blob := .enforce, manager := true, sig := .valid, fuzz := false }).panicked = true ∧
+      { entry := .nVerify, oci := .missing, blob := .enforce, manager := true, sig := .valid, fuzz := false, label := "", data := "" }).panicked = true ∧
     (runWith { all with nVerifyBlobContentNil := false }
-      { entry := .nVerifyBlob, oci := .missing, blob := .skip, manager := true, sig := .valid, fuzz := false }).panicked = true ∧
+      { entry := .nVerifyBlob, oci := .missing, blob := .skip, manager := true, sig := .valid, fuzz := false, label := "", data := "" }).panicked = true ∧
     (runWith { all with vVerifyDocNil := false }
-      { entry := .vVerify, oci := .missing, blob := .enforce, manager := true, sig := .valid, fuzz := false }).panicked = true ∧
+      { entry := .vVerify, oci := .missing, blob := .enforce, manager := true, sig := .valid, fuzz := false, label := "", data := "" }).panicked = true ∧
     (runWith { all with vVerifyBlobDocNil := false }
-      { entry := .vVerifyBlob, oci := .enforce, blob := .missing, manager := true, sig := .valid, fuzz := false }).panicked = true ∧
+      { entry := .vVerifyBlob, oci := .enforce, blob := .missing, manager := true, sig := .valid, fuzz := false, label := "", data := "" }).panicked = true ∧
     (runWith { all with pluginManagerNil := false }
-      { entry := .vVerify, oci := .enforce, blob := .missing, manager := false, sig := .demandsPlugin, fuzz := false }).panicked = true ∧
+      { entry := .vVerify, oci := .enforce, blob := .missing, manager := false, sig := .demandsPlugin, fuzz := false, label := "", data := "" }).panicked = true ∧
     (runWith { all with userMetadataContentNil := false }
-      { entry := .userMetadata, oci := .skip, blob := .missing, manager := true, sig := .valid, fuzz := false }).panicked = true ∧
+      { entry := .userMetadata, oci := .skip, blob := .missing, manager := true, sig := .valid, fuzz := false, label := "", data := "" }).panicked = true ∧
     (runWith { all with nVerifyVerifierNil := false }
-      { entry := .nilArgs, oci := .enforce, blob := .enforce, manager := true, sig := .valid, fuzz := false }).panicked = true := by
+      { entry := .nilArgs, oci := .enforce, blob := .enforce, manager := true, sig := .valid, fuzz := false, label := "", data := "" }).panicked = true := by
   decide
 
 /-- **err_consistency**, verifier level: no error means an outcome without error; a failure after
@@ -95,14 +95,14 @@ theorem model_holds (i : Input) : Holds i (run i) = true := by
   · simp [Clauses.holds]
 
 /-- non-vacuity: the two configurations that panicked before the repairs are now plain results -/
-example : run { entry := .nVerifyBlob, oci := .missing, blob := .skip, manager := true, sig := .valid, fuzz := false } =
+example : run { entry := .nVerifyBlob, oci := .missing, blob := .skip, manager := true, sig := .valid, fuzz := false, label := "", data := "" } =
     okWith false := by decide
-example : run { entry := .nVerify, oci := .missing, blob := .enforce, manager := true, sig := .valid, fuzz := false } =
+example : run { entry := .nVerify, oci := .missing, blob := .enforce, manager := true, sig := .valid, fuzz := false, label := "", data := "" } =
     failNoOutcome := by decide
 /-- `Holds` refutes a panic and an inconsistent pair -/
-example : Holds { entry := .vVerify, oci := .enforce, blob := .missing, manager := true, sig := .garbage, fuzz := false }
+example : Holds { entry := .vVerify, oci := .enforce, blob := .missing, manager := true, sig := .garbage, fuzz := false, label := "", data := "" }
     { panicked := false, err := true, outcome := none, consistent := true } = false := by decide
-example : Holds { entry := .nVerify, oci := .missing, blob := .enforce, manager := true, sig := .valid, fuzz := false }
+example : Holds { entry := .nVerify, oci := .missing, blob := .enforce, manager := true, sig := .valid, fuzz := false, label := "", data := "" }
     { panicked := true, err := false, outcome := none, consistent := false } = false := by decide
 
 end NotationModel.C12
